@@ -31,10 +31,23 @@ class World:
 
     def add_class(self, cls):
         self.classes[cls.name] = cls
+        self.ext = None
         return self
+
+    def methods_of(self, cls, _seen=None):
+        """name -> Func with inherited methods of registered base classes (own definitions win)."""
+        _seen = _seen or set()
+        out = {}
+        for bname in cls.base_names():
+            b = self.classes.get((bname or "").split(".")[-1])
+            if b is not None and b.name not in _seen:
+                out.update(self.methods_of(b, _seen | {cls.name}))
+        out.update(cls.methods)
+        return out
 
     def add_func(self, f):
         self.funcs[f.node.name] = f
+        self.ext = None
         return self
 
     # ---- binding
@@ -87,12 +100,12 @@ class World:
             for mname, m in cls.methods.items():
                 if any(A.dotted(d) == "staticmethod" for d in m.node.decorator_list) and mname not in ext:
                     ext[mname] = (lambda a, k, m=m: self.call_func(m, a, k))
-        mnames = {m for cls in self.classes.values() for m in cls.methods}
+        mnames = {m for cls in self.classes.values() for m in self.methods_of(cls)}
         for m in mnames:
             base_m = self.base.get("." + m)
 
             def disp(recv, a, k, m=m, base_m=base_m):
-                if isinstance(recv, Instance) and m in recv.cls.methods:
+                if isinstance(recv, Instance) and m in self.methods_of(recv.cls):
                     return self.call_method(recv, m, a, k)
                 if base_m is not None:
                     return base_m(recv, a, k)
@@ -101,19 +114,35 @@ class World:
             ext["." + m] = disp
         ext["__iter__"] = self.iterate
         ext["__call__"] = self.call_instance
+        ext["__super__"] = self.call_super
         self.ext = ext
         return ext
 
+    def call_super(self, cls_name, mname, inst, args, kwargs):
+        cls = self.classes.get(cls_name)
+        if cls is None or not isinstance(inst, Instance):
+            raise Undecided(f"super().{mname} outside the object model")
+        for bname in cls.base_names():
+            b = self.classes.get((bname or "").split(".")[-1])
+            if b is not None and mname in self.methods_of(b):
+                m = self.methods_of(b)[mname]
+                env = dict(self.module_env)
+                env.update(self._bind(m.node, list(args), kwargs or {}, skip_self=True))
+                env["self"] = inst
+                it = Interp(env, inst.attrs, self.region, methods={n: mm.node for n, mm in self.methods_of(b).items()}, cls_name=b.name, externals=self.externals())
+                return it.run(A.strip_docstring(m.node.body))
+        raise Undecided(f"super().{mname}: no registered base class defines it")
+
     def call_instance(self, v, args, kwargs):
-        if not (isinstance(v, Instance) and "__call__" in v.cls.methods):
+        if not (isinstance(v, Instance) and "__call__" in self.methods_of(v.cls)):
             raise NotHandled()
         return self.call_method(v, "__call__", args, kwargs)
 
     def iterate(self, v):
         """Items of `for x in instance`: the operand of the `yield from` / `return iter(...)` of its __iter__."""
-        if not (isinstance(v, Instance) and "__iter__" in v.cls.methods):
+        if not (isinstance(v, Instance) and "__iter__" in self.methods_of(v.cls)):
             raise NotHandled()
-        body = A.strip_docstring(v.cls.methods["__iter__"].node.body)
+        body = A.strip_docstring(self.methods_of(v.cls)["__iter__"].node.body)
         src = None
         if len(body) == 1 and isinstance(body[0], ast.Expr) and isinstance(body[0].value, ast.YieldFrom):
             src = body[0].value.value
@@ -126,17 +155,18 @@ class World:
 
     def new(self, cls, args, kwargs):
         inst = Instance(cls)
-        if "__init__" in cls.methods:
+        if "__init__" in self.methods_of(cls):
             self.call_method(inst, "__init__", args, kwargs)
         return inst
 
     def call_method(self, inst, mname, args, kwargs=None):
-        m = inst.cls.methods[mname]
+        allm = self.methods_of(inst.cls)
+        m = allm[mname]
         self.calls.append(("method", f"{inst.cls.name}.{mname}"))
         env = dict(self.module_env)
         env.update(self._bind(m.node, list(args), kwargs or {}, skip_self=True))
         env["self"] = inst
-        it = Interp(env, inst.attrs, self.region, methods={n: mm.node for n, mm in inst.cls.methods.items()}, cls_name=inst.cls.name, externals=self.externals())
+        it = Interp(env, inst.attrs, self.region, methods={n: mm.node for n, mm in allm.items()}, cls_name=inst.cls.name, externals=self.externals())
         return it.run(A.strip_docstring(m.node.body))
 
     def call_func(self, f, args, kwargs=None):
